@@ -383,6 +383,107 @@ impl Table {
 }
 
 // ---------------------------------------------------------------------------------------------------------
+// pairs part: every state-setting command with every selector value, followed by every drawing command with
+// ordinary in-canvas parameters (state-dependent defects, found deterministically)
+
+fn mk(lvl: u8, cmd: u8, fields: &[(usize, u32)], text: &[u8]) -> RipSeg {
+    let mut p = Vec::new();
+    for (w, v) in fields {
+        p.extend(b36(*w, *v));
+    }
+    p.extend_from_slice(text);
+    RipSeg { lvl, cmd, params: Bytes(p), term: 1, cont: 255 }
+}
+
+pub struct Pairs {
+    setters: Vec<RipSeg>,
+    drawers: Vec<RipSeg>,
+}
+
+impl Pairs {
+    pub fn new() -> Pairs {
+        let mut s: Vec<RipSeg> = Vec::new();
+        for font in 0..=11u32 {
+            for (dir, size) in [(0u32, 1u32), (0, 4), (1, 4), (0, 10), (1, 10)] {
+                s.push(mk(0, b'Y', &[(2, font), (2, dir), (2, size), (2, 0)], b""));
+            }
+        }
+        for mode in 0..=4 {
+            s.push(mk(0, b'W', &[(2, mode)], b""));
+        }
+        for style in 0..=4 {
+            for thick in [1, 3] {
+                s.push(mk(0, b'=', &[(2, style), (4, 0x0F0F), (2, thick)], b""));
+            }
+        }
+        for pat in 0..=12 {
+            s.push(mk(0, b'S', &[(2, pat), (2, 5)], b""));
+        }
+        s.push(mk(0, b's', &[(2, 1), (2, 2), (2, 4), (2, 8), (2, 16), (2, 32), (2, 64), (2, 128), (2, 14)], b""));
+        for orient in 0..=5 {
+            for (flags, flags2) in [(0u32, 0u32), (8 + 16 + 512 + 32768, 0), (32 + 2048, 2)] {
+                s.push(mk(1, b'B', &[(2, 10), (2, 10), (2, orient), (4, flags), (2, 2), (2, 15), (2, 8), (2, 15), (2, 8), (2, 7), (2, 0), (2, flags2), (2, 14), (2, 7), (6, 0)], b""));
+            }
+        }
+        for c in [0, 7, 15] {
+            s.push(mk(0, b'c', &[(2, c)], b""));
+        }
+        for (x0, y0, x1, y1) in [(0u32, 0u32, 639u32, 349u32), (10, 10, 300, 200), (600, 300, 700, 400), (700, 400, 900, 500), (0, 0, 1295, 1295), (300, 200, 10, 10)] {
+            s.push(mk(0, b'v', &[(2, x0), (2, y0), (2, x1), (2, y1)], b""));
+        }
+        let full: Vec<(usize, u32)> = (0..16).map(|i| (2usize, i as u32)).collect();
+        s.push(mk(0, b'Q', &full, b""));
+        s.push(mk(0, b'Q', &full[..4], b""));
+        for (i, v) in [(0, 0), (15, 63), (40, 10)] {
+            s.push(mk(0, b'a', &[(2, i), (2, v)], b""));
+        }
+        for (x0, y0, x1, y1) in [(10u32, 10u32, 30u32, 30u32), (0, 0, 0, 0), (600, 300, 700, 400)] {
+            s.push(mk(1, b'C', &[(2, x0), (2, y0), (2, x1), (2, y1), (1, 0)], b""));
+        }
+        s.push(mk(0, b'm', &[(2, 15), (2, 15)], b""));
+        s.push(mk(0, b'm', &[(2, 1000), (2, 1000)], b""));
+        s.push(mk(0, b'w', &[(2, 5), (2, 5), (2, 50), (2, 10), (1, 1), (1, 0)], b""));
+
+        let mut d: Vec<RipSeg> = Vec::new();
+        let rect = [(2usize, 10u32), (2, 10), (2, 200), (2, 100)];
+        for c in [b'L', b'R', b'B'] {
+            d.push(mk(0, c, &rect, b""));
+        }
+        d.push(mk(0, b'C', &[(2, 100), (2, 100), (2, 50)], b""));
+        d.push(mk(0, b'O', &[(2, 100), (2, 100), (2, 0), (2, 360), (2, 50), (2, 30)], b""));
+        d.push(mk(0, b'o', &[(2, 100), (2, 100), (2, 50), (2, 30)], b""));
+        d.push(mk(0, b'A', &[(2, 100), (2, 100), (2, 0), (2, 90), (2, 50)], b""));
+        d.push(mk(0, b'V', &[(2, 100), (2, 100), (2, 0), (2, 90), (2, 50), (2, 30)], b""));
+        d.push(mk(0, b'I', &[(2, 100), (2, 100), (2, 0), (2, 90), (2, 50)], b""));
+        d.push(mk(0, b'i', &[(2, 100), (2, 100), (2, 0), (2, 90), (2, 50), (2, 30)], b""));
+        d.push(mk(0, b'Z', &[(2, 10), (2, 10), (2, 50), (2, 80), (2, 100), (2, 20), (2, 150), (2, 60), (2, 20)], b""));
+        let tri = [(2usize, 3u32), (2, 20), (2, 20), (2, 120), (2, 30), (2, 60), (2, 90)];
+        for c in [b'P', b'p', b'l'] {
+            d.push(mk(0, c, &tri, b""));
+        }
+        d.push(mk(0, b'F', &[(2, 100), (2, 100), (2, 15)], b""));
+        d.push(mk(0, b'X', &[(2, 50), (2, 50)], b""));
+        d.push(mk(0, b'T', &[], b"Hi"));
+        d.push(mk(0, b'@', &[(2, 20), (2, 20)], b"Hi"));
+        d.push(mk(1, b'P', &[(2, 20), (2, 20), (2, 0), (1, 0)], b""));
+        d.push(mk(1, b'G', &[(2, 10), (2, 10), (2, 50), (2, 50), (2, 0), (2, 100)], b""));
+        d.push(mk(1, b'U', &[(2, 20), (2, 20), (2, 100), (2, 60), (2, 65), (1, 0), (1, 0)], b"<>Ab<>cmd^M"));
+        d.push(mk(1, b'M', &[(2, 0), (2, 10), (2, 10), (2, 50), (2, 50), (1, 1), (1, 0), (5, 0)], b"cmd^M"));
+        d.push(mk(0, b'e', &[], b""));
+        d.push(mk(0, b'E', &[], b""));
+        d.push(mk(0, b'*', &[], b""));
+        Pairs { setters: s, drawers: d }
+    }
+    pub fn total(&self) -> u64 {
+        (self.setters.len() * self.drawers.len()) as u64
+    }
+    pub fn case(&self, i: u64) -> RipCase {
+        let nd = self.drawers.len() as u64;
+        RipCase { prefix: 0, segs: vec![self.setters[(i / nd) as usize].clone(), self.drawers[(i % nd) as usize].clone()] }
+    }
+}
+
+// ---------------------------------------------------------------------------------------------------------
 // random part
 
 const JUNK: &[u8] = b" -.,;:$^<>~*#@_/()[]{}\\\x1b\x00\x7f\xe4\xff?+=&%\"'";
